@@ -682,7 +682,10 @@ macro_rules! boolean_array_impl {
                 type Output = Self;
 
                 fn not(self) -> Self::Output {
-                    Self(self.0.not())
+                    let mut result = self.0.not();
+                    // keep the padding bits (if any) zero, so the value stays canonical
+                    result[$bits..].fill(false);
+                    Self(result)
                 }
             }
 
